@@ -77,7 +77,7 @@ def stft_histories(run, tier, rng):
             if rec.input_modified:
                 run.violation({"kind": "stft_input_array_modified", "L": L, "S": S, "style": st, "history": [list(o) for o in h]})
             tid += 1
-            traces.append({"tid": tid, "cfg": {"L": L, "S": S, "st": st},
+            traces.append({"tid": tid, "cfg": {"L": L, "S": S, "st": stubs.spec_style(st)},
                            "events": [{k: e[k] for k in ("a", "err", "fr", "st", "c", "n", "cs") if k in e} for e in rec.events]})
             meta[tid] = (L, S, st, h)
     rejected, tr = common.validate_traces_parallel("TraceStftDef", "TraceStftDef.cfg", traces, shards=14)
